@@ -19,7 +19,7 @@ CRATES = {
     "sos_core": ("sos-core", "crates/core", "files"),
     "sos_vault": ("sos-vault", "crates/vault"),
     "sos_filesystem": ("sos-filesystem", "crates/filesystem", "files"),
-    "sos_reducers": ("sos-reducers", "crates/reducers", "files"),
+    "sos_reducers": ("sos-reducers", "crates/reducers", "files,sos-core/files"),
     "sos_remote_sync": ("sos-remote-sync", "crates/remote_sync", "files"),
     "sos_protocol": ("sos-protocol", "crates/protocol", "files"),
     "sos_search": ("sos-search", "crates/search"),
